@@ -289,9 +289,13 @@ func tryGetRedumpKey(fsys afero.Fs, requestedPath string) ([]byte, error) {
 
 	// try .dkey file first
 	keyFile, err := fsys.Open(strings.TrimSuffix(requestedPath, ext) + dkeyExt)
-	if err == nil {
+	switch {
+	case err == nil:
 		defer keyFile.Close()
 		return ReadKeyFile(keyFile)
+	case !errors.Is(err, afero.ErrFileNotFound):
+		// key probably exists but can't be read: serving encrypted data as is would be wrong
+		return nil, fmt.Errorf("open key file failed: %w", err)
 	}
 
 	// try .dkey in REDKEY directory (instead of PS3ISO)
